@@ -53,6 +53,9 @@ ScriptsG1 == ScriptsQuick \cup ScriptsC40 \cup {
 }
 ScriptsTwo == {<<Add, Add, Rm(0)>>, <<Add, Clear, Add>>}
 
+(* capacity 1: every add after the first finds the table full until a removal *)
+ScriptsCap1 == { <<Add, Add, Rm(0), Add>>, <<Add, Clear, Add, Add>>, <<Add, RmIf({0}), Add, Rm(2)>> }
+
 ScriptsBump == {<<Add, Rm(0)>>}
 ScriptsOne == {<<Add, Add, Rm(0)>>}
 ScriptsSeq == {<<Add, Add, Rm(1)>>}
